@@ -487,7 +487,10 @@ func Emit(p *ps.Program, pkg, fnsPkg string) *Files {
 	// ----- an auxiliary directive of the other kind before the program's own one (every fourth
 	// program): files with several directives, a Parallel before a Flow and vice versa
 	if p.PID%4 == 2 && (p.Quirk == "" || p.Quirk == "timealias" || p.Quirk == "params2" || p.Quirk == "results2") && strings.HasPrefix(p.Stream, "wf") {
-		if p.Kind == "flow" {
+		if p.Kind == "flow" && p.PID%8 == 6 {
+			// … inside a package-level variable declaration
+			e.w("var extraP%d = func(cx context.Context) error {\n\treturn cff.Parallel(cx, cff.Task(func() {}))\n}\n\n", p.PID)
+		} else if p.Kind == "flow" {
 			e.w("func extraP%d(cx context.Context) error {\n\treturn cff.Parallel(cx, cff.Task(func() {}))\n}\n\n", p.PID)
 		} else {
 			e.w("func extraP%d(cx context.Context) (n int64, err error) {\n\terr = cff.Flow(cx, cff.Results(&n), cff.Task(func() int64 { return 7 }))\n\treturn\n}\n\n", p.PID)
@@ -558,6 +561,9 @@ func Emit(p *ps.Program, pkg, fnsPkg string) *Files {
 		e.w("\tif e2 := cff.%s(%s,\n", directive, e.arg(cx))
 	case "arg":
 		e.w("\t%s %s rt.Ret(h, cff.%s(%s,\n", errVar, assign, directive, e.arg(cx))
+	case "var":
+		// the directive as the initialiser of a local variable declaration
+		e.w("\tvar %s = cff.%s(%s,\n", errVar, directive, e.arg(cx))
 	default:
 		e.w("\t%s %s cff.%s(%s,\n", errVar, assign, directive, e.arg(cx))
 	}
